@@ -405,7 +405,7 @@ def mmName : List Nat := "message_manager".toList.map (·.toNat)
     holds no id; the dynamic-id cursor stays inside its range -/
 structure MInvOn (P : Nat → Prop) (cfg : Cfg) (s : State) : Prop where
   distinct : (s.mods.map (·.uid)).Nodup
-  mgr : ∀ m0, s.find 0 = some m0 → m0.modId = 0 ∧ m0.name = mmName
+  mgr : ∀ m0, s.find 0 = some m0 → m0.modId = 0 ∧ m0.name = mmName ∧ m0.isLogger = false
   unconn : ∀ u m, P u → s.find u = some m → m.connected = false → m.modId = 0
   ndyn : maxDyn cfg = 0 ∨ s.nextDyn < maxDyn cfg
 
@@ -422,13 +422,13 @@ theorem minv_nest {P : Nat → Prop} {cfg : Cfg} {s s' : State} (h : MInvOn P cf
   refine ⟨n.uids.nodup h.distinct, fun m0 hm0 => ?_, fun u m' hp hm' hc => ?_, by rw [n.ndyn]; exact h.ndyn⟩
   · obtain ⟨m, hm, e⟩ := n.surv 0 m0 hm0 (ao' 0 m0 hm0)
     obtain ⟨e1, e2, _⟩ := core_more e
-    rw [e1, e2]; exact h.mgr m hm
+    rw [e1, e2, (core_fields e).2.2.1]; exact h.mgr m hm
   · obtain ⟨m, hm, e⟩ := n.surv u m' hm' (ao' u m' hm')
     obtain ⟨e1, _, e3⟩ := core_more e
     rw [e1]; exact h.unconn u m hp hm (by rw [← e3]; exact hc)
 
 /-- a step that keeps the table and the cursor -/
-theorem minv_same {P : Nat → Prop} {cfg : Cfg} {s s' : State} (h : MInvOn P cfg s) (hm : s'.mods = s.mods)
+theorem minvOn_same {P : Nat → Prop} {cfg : Cfg} {s s' : State} (h : MInvOn P cfg s) (hm : s'.mods = s.mods)
     (hd : s'.nextDyn = s.nextDyn) : MInvOn P cfg s' := by
   have hfind : ∀ u, s'.find u = s.find u := fun u => by unfold State.find; rw [hm]
   exact ⟨by rw [hm]; exact h.distinct, fun m0 h0 => h.mgr m0 (by rw [← hfind]; exact h0),
@@ -486,7 +486,7 @@ fields of `A` are not constrained.  The last clauses are facts about the model a
 that are in the table are exactly the modules with the logger flag, each listed once, and those are connected; no uid
 that was not handed out yet is in the logger set; a module is listed in the subscription index under every type of its own
 `subs` (the converse of `SubInv.sub`), and the manager's own table entry is listed nowhere. -/
-structure Sim (cfg : Cfg) (a : Spec.A) (s : State) : Prop where
+structure SimM (cfg : Cfg) (a : Spec.A) (s : State) : Prop where
   uids : a.mods.map (·.uid) = (List.range a.nAccepted).map (· + 1)
   nacc : a.nAccepted = s.nextUid
   fail : a.fail = s.fail
@@ -544,9 +544,9 @@ theorem closed_gone {s s' : State} (ao' : AllOpen s') (j : J s') (ext : List Ev)
 /-- **Nested activity is replayed by `applyDepartures`.**  If the abstract state simulates the model state `s`, and the
 model moves to `s'` by nested manager activity only (between two points where no module is half-removed), then marking
 as departed exactly the connections closed in the events of that move restores the simulation. -/
-theorem sim_quiet {cfg : Cfg} {a : Spec.A} {s s' : State} (hs : Sim cfg a s) (ao : AllOpen s) (ao' : AllOpen s')
+theorem sim_quiet {cfg : Cfg} {a : Spec.A} {s s' : State} (hs : SimM cfg a s) (ao : AllOpen s) (ao' : AllOpen s')
     (n : Nest s s') (j : J s') (ext : List Ev) (he : s'.out = s.out ++ ext) :
-    Sim cfg (Spec.applyDepartures a ext) s' := by
+    SimM cfg (Spec.applyDepartures a ext) s' := by
   obtain ⟨hb, hfl, hw, hna, herr⟩ := Spec.applyDepartures_core a ext
   obtain ⟨ext', he', _, hcl⟩ := n.ext
   have hee : ext' = ext := List.append_cancel_left (he'.symm.trans he)
@@ -622,7 +622,7 @@ While a CONNECT request is handled the record of the requesting connection is re
 `connected` and the logger set last) with nested activity in between; the relation then holds for every *other*
 connection, and is re-established for the requester at the end. -/
 
-/-- `Sim` with the per-connection clauses restricted to the connections satisfying `P` -/
+/-- `SimM` with the per-connection clauses restricted to the connections satisfying `P` -/
 structure SimOn (P : Nat → Prop) (cfg : Cfg) (a : Spec.A) (s : State) : Prop where
   uids : a.mods.map (·.uid) = (List.range a.nAccepted).map (· + 1)
   nacc : a.nAccepted = s.nextUid
@@ -640,12 +640,12 @@ structure SimOn (P : Nat → Prop) (cfg : Cfg) (a : Spec.A) (s : State) : Prop w
   idxPos : ∀ t u, u ∈ idxGet s.idx t → u ≠ 0
   minv : MInvOn P cfg s
 
-theorem Sim.on {cfg : Cfg} {a : Spec.A} {s : State} (h : Sim cfg a s) (P : Nat → Prop) : SimOn P cfg a s :=
+theorem SimM.on {cfg : Cfg} {a : Spec.A} {s : State} (h : SimM cfg a s) (P : Nat → Prop) : SimOn P cfg a s :=
   ⟨h.uids, h.nacc, h.fail, h.buf, fun u _ => h.live u, fun u am m _ => h.mods u am m, fun u _ => h.w u,
    fun u m _ => h.logIn u m, fun u m _ => h.logOut u m, fun u m _ => h.logConn u m, h.logNodup, h.logBound,
    fun u m t _ => h.idxIn u m t, h.idxPos, h.minv.mono (fun _ _ => trivial)⟩
 
-theorem SimOn.all {cfg : Cfg} {a : Spec.A} {s : State} (h : SimOn (fun _ => True) cfg a s) : Sim cfg a s :=
+theorem SimOn.all {cfg : Cfg} {a : Spec.A} {s : State} (h : SimOn (fun _ => True) cfg a s) : SimM cfg a s :=
   ⟨h.uids, h.nacc, h.fail, h.buf, fun u => h.live u trivial, fun u am m => h.mods u am m trivial, fun u => h.w u trivial,
    fun u m => h.logIn u m trivial, fun u m => h.logOut u m trivial, fun u m => h.logConn u m trivial, h.logNodup, h.logBound,
    fun u m t => h.idxIn u m t trivial, h.idxPos, h.minv⟩
